@@ -938,6 +938,22 @@ impl Prop for C07 {
         Ok(16)
     }
     fn enumerate(&self, tier: Tier, _seed: u64) -> Vec<Case> {
+        let out = cases(tier);
+        if let Err(e) = wire_batch(&wire_subset(&out, tier.thorough())) {
+            eprintln!("MACHINERY: {e}");
+            std::process::exit(2);
+        }
+        WIRE_BATCH_DONE.store(true, Ordering::SeqCst);
+        out
+    }
+    fn check(&self, c: &Case) -> CaseResult {
+        check_case(c)
+    }
+}
+
+/// the value space (without the wire batch; also used by C01 for its rustc judge)
+pub fn cases(tier: Tier) -> Vec<Case> {
+    {
         let mut base: Vec<Case> = vec![];
         let mut add = |notation: &str, ty: &str, prelude: &str, value: String, expected: Val, feature: String| {
             base.push(Case { notation: notation.into(), ty: ty.into(), prelude: prelude.into(), value, expected, route: "assign".into(), feature, vt: None });
@@ -1160,14 +1176,12 @@ impl Prop for C07 {
                 out.push(c2);
             }
         }
-        if let Err(e) = wire_batch(&wire_subset(&out, tier.thorough())) {
-            eprintln!("MACHINERY: {e}");
-            std::process::exit(2);
-        }
-        WIRE_BATCH_DONE.store(true, Ordering::SeqCst);
         out
     }
-    fn check(&self, c: &Case) -> CaseResult {
+}
+
+fn check_case(c: &Case) -> CaseResult {
+    {
         let src = text(c);
         let o = compile1(&src);
         let kb = format!("value|notation={}|route={}|feature={}", c.notation, c.route, c.feature);
